@@ -15,15 +15,17 @@ What is proved here (model M4):
   uses the translator fact that `create_channel` counts the channel before the reply is sent
   (`createChannelCountsBeforeReply`, regenerated from broker.rs on every run — this is where the
   defect fixed in 2be3d48 shows up as a broken proof);
+* likewise the gauges for connections, objects and services, the equal size of the two views of the object
+  and of the service registry, unique keys and cookie freshness (`registry_gauges_all_histories`);
 * run-loop exit condition (`finished_iff`), broker shutdown queues every connection for removal with
   a Shutdown message and sets the flag (`broker_shutdown_queues_all`), idle shutdown only sets its
   flag (`idle_shutdown_sets_flag`).
-Partial: gauges for connections / objects / services and "no residual state once all connections are
-gone" need the registry cross-reference invariant; they are covered by the correspondence runs (every
+Partial: "no residual state once all connections are gone" (objects, services, calls, subscriptions of a
+removed connection are gone) needs the registry cross-reference invariant; it is covered by the correspondence runs (every
 scenario ends by closing everything in one of two orders, comparing `take_statistics` with the model
 and the model's gauges with its map sizes, and requiring `Broker::run` to finish), not by a theorem.
 -/
-import Aldrin.Lemmas.Broker.Gauge
+import Aldrin.Lemmas.Broker.Gauge5
 
 namespace Aldrin.Broker
 open Generated
@@ -36,6 +38,25 @@ theorem channel_listener_gauges_all_histories (es : List Event) (b : Broker) (w 
     (∀ k v, AL.find? k b.listeners = some v → k < b.nextCookie) := by
   obtain ⟨h1, h2⟩ := run_G2 es _ _ _ _ _ G2_init h
   exact ⟨h1.size, h2.size, h1.nodup, h2.nodup, h1.below, h2.below⟩
+
+/-- all five gauges, for every history: connections, objects (both views), services (both views) — sizes
+equal the gauge, keys are unique, issued cookies are below the counter -/
+theorem registry_gauges_all_histories (es : List Event) (b : Broker) (w : Work) (outs : List (List Out))
+    (h : run {} {} es = .ok (b, w, outs)) :
+    b.stats.numConnections = b.conns.length ∧ b.stats.numObjects = b.objUuids.length ∧ b.stats.numObjects = b.objs.length ∧
+    b.stats.numServices = b.svcUuids.length ∧ b.stats.numServices = b.svcs.length ∧
+    AL.NodupKeys b.conns ∧ AL.NodupKeys b.objUuids ∧ AL.NodupKeys b.objs ∧ AL.NodupKeys b.svcUuids ∧ AL.NodupKeys b.svcs ∧
+    (∀ k v, AL.find? k b.objUuids = some v → k < b.nextCookie) ∧ (∀ k v, AL.find? k b.svcUuids = some v → k < b.nextCookie) := by
+  obtain ⟨g1, g2, g3, g4, g5⟩ := run_G5 es _ _ _ _ _ G5_init h
+  exact ⟨by simpa using g1.size, by simpa using g2.size, by simpa using g3.size, g4.size, g5.size,
+    g1.nodup, g2.nodup, g3.nodup, g4.nodup, g5.nodup, g2.below, g4.below⟩
+
+/-- once all connections are gone the connection gauge is zero (and the run loop's idle exit condition holds
+as soon as idle shutdown was requested) -/
+theorem no_connections_gauge_zero (es : List Event) (b : Broker) (w : Work) (outs : List (List Out))
+    (h : run {} {} es = .ok (b, w, outs)) (hc : b.conns = []) : b.stats.numConnections = 0 := by
+  have := (registry_gauges_all_histories es b w outs h).1
+  rw [hc] at this; exact this
 
 theorem counts_channel_before_reply : createChannelCountsBeforeReply = true := by decide
 
